@@ -1,10 +1,36 @@
-(* C03 -- statements only.
-   Here: the part of C03 that is about the parsed object ("on success every reported text range
-   lies inside the input").  Non-interference with what follows the range and the absence of
-   residue on failure are statements about the tape-level / memory-level models, not stated in this
-   file yet. *)
-From Coq Require Import List NArith Bool String.
-From UP Require Import Base.Chars Model.Uri Model.Parse Spec.Unparse Proofs.ParseWf.
+(* C03 — parsing stays inside the given range and leaves no residue on failure.  Statements only.
+   Proofs in Proofs/ParseWf.v (ranges inside the input), Proofs/ParsePrefix.v (left to right; the
+   memory tier reports the outcome of the data tier), Proofs/ParseAccept.v (error position),
+   Proofs/LedgerProofs.v and Proofs/LedgerTheorems.v (nothing stays allocated after a failure).
+
+   What the model can and cannot say.  In the parser model (Model/Parse.v) the range
+   [first, afterLast) IS the argument, a list of code points: there is nothing outside it to read and
+   nothing to write to, so "never reads a character outside the range, never writes to the input"
+   has no model-level content.  It is checked on the implementation only, by gen/c03.py: every input
+   is parsed (a) in a buffer that ends exactly at the end of an allocation / of readable memory
+   (sanitizer red zone behind afterLast), (b) in the middle of larger buffers with varying trailing
+   content, every split point of a longer text included, and (c) on a private exact-size copy; the
+   results must be equal, the input bytes unchanged, and every reported range must point into the
+   caller's buffer or, for an empty component, at the private placeholder (uriSafeToPointTo).
+   What IS stated here about the model: the parser consumes the text from left to right, and what it
+   has done after a prefix is a function of that prefix (C03_left_to_right, C03_common_prefix,
+   C03_error_in_prefix_is_final); the position reported with a syntax error lies inside the range
+   (C03_error_inside); the NUL-terminated entry points see nothing behind the terminator
+   (C03_cstr_ignores_rest); on success every reported text is a contiguous piece of the input
+   (C03_ranges_inside).
+   No residue: the memory tier (Model/ParseM.v parse_m over the allocation ledger of Model/Mem.v) is
+   the same automaton with the allocations and the failure exits of the C code
+   (uriStopSyntax / uriStopMalloc free what was built; uriParseSingleUriExMm frees again);
+   C03_same_outcome ties its outcome to [parse]; C03_no_residue / C03_no_residue_count say that after
+   a syntax error or an out-of-memory failure exactly the blocks live before the call are live,
+   for every ledger state and every fault plan, and no block was released that was not live.  The
+   model returns no object on failure; the C code leaves the reset structure, for which releasing
+   the members is a no-op however often it is repeated (C03_free_after_failure; that the structure
+   really is reset, and that the C free function survives it under the sanitizer, is checked by
+   gen/c03.py). *)
+From Coq Require Import List NArith Bool String Permutation.
+From UP Require Import Base.Chars Model.Uri Model.Parse Model.Mem Model.ParseM Spec.Unparse Proofs.ParseWf
+  Proofs.ParsePrefix Proofs.LedgerProofs Proofs.LedgerTheorems.
 From UP Require Proofs.ResolveProofs.
 Import ListNotations.
 
@@ -17,7 +43,111 @@ Theorem C03_ranges_inside : forall s u, parse s = POk u -> components_inside u s
 Proof. exact parse_inside. Qed.
 Print Assumptions C03_ranges_inside.
 
-(* non-vacuity *)
+(* Left to right: running over s1 ++ s2 is running over s1 and continuing over s2 from the state
+   reached ([psteps]: control state, data, position; or the error raised on the way). *)
+Theorem C03_left_to_right : forall s1 c d i s2,
+  prun c d i (s1 ++ s2) =
+  match psteps c d i s1 with
+  | inl (c', d', i') => prun c' d' i' s2
+  | inr e => PSyntax e
+  end.
+Proof. exact prun_app. Qed.
+Print Assumptions C03_left_to_right.
+
+(* Two texts with a common prefix: after the prefix the parser is in the same state, at the position
+   just behind it, in both; what follows the prefix has had no influence on that state. *)
+Theorem C03_common_prefix : forall s1 s2 s2',
+  match psteps CStart pdata_init 0 s1 with
+  | inl (c', d', i') => parse (s1 ++ s2) = prun c' d' i' s2 /\ parse (s1 ++ s2') = prun c' d' i' s2' /\ i' = length s1
+  | inr e => parse (s1 ++ s2) = PSyntax e /\ parse (s1 ++ s2') = PSyntax e
+  end.
+Proof. exact parse_common_prefix. Qed.
+Print Assumptions C03_common_prefix.
+
+(* A syntax error raised while reading a prefix is the outcome whatever follows, and its position
+   lies inside the prefix. *)
+Theorem C03_error_in_prefix_is_final : forall s1 e, psteps CStart pdata_init 0 s1 = inr e ->
+  forall s2, parse (s1 ++ s2) = PSyntax e /\ (e < length s1)%nat.
+Proof. exact parse_prefix_error. Qed.
+Print Assumptions C03_error_in_prefix_is_final.
+
+(* The reported error position lies inside the range (afterLast itself for "unexpected end").
+   (C01_errpos says where exactly.) *)
+Theorem C03_error_inside : forall s e, parse s = PSyntax e -> (e <= length s)%nat.
+Proof. exact parse_error_inside. Qed.
+Print Assumptions C03_error_inside.
+
+(* The NUL-terminated entry points parse the text before the first NUL: whatever stands behind the
+   terminator does not influence the outcome. *)
+Theorem C03_cstr_ignores_rest : forall s junk junk', ~ In 0%N s ->
+  parse_cstr (s ++ 0%N :: junk) = parse s /\ parse_cstr (s ++ 0%N :: junk) = parse_cstr (s ++ 0%N :: junk').
+Proof. exact parse_cstr_ignores_rest. Qed.
+Print Assumptions C03_cstr_ignores_rest.
+
+(* The memory tier reports success where [parse] does, and the same error position, unless an
+   allocation failed. *)
+Theorem C03_same_outcome : forall t s,
+  match fst (parse_m t s) with
+  | MOk m => exists u, parse t = POk u
+  | MSyntax e => parse t = PSyntax e
+  | MMalloc => True
+  end.
+Proof. exact parse_m_agrees. Qed.
+Print Assumptions C03_same_outcome.
+
+(* No residue, for every text, every consistent ledger state and every fault plan: after a syntax
+   error or an out-of-memory failure the live blocks are those live before the call ([ext]: the
+   ledger only grew a trace, no release of a block that was not live); out-of-memory is reported only
+   when a request made during the call was refused.  On success the object holds exactly what the
+   ledger gained. *)
+Theorem C03_no_residue : forall t s0, wf s0 ->
+  match parse_m t s0 with
+  | (MOk m, s') => wf s' /\ ext s0 s' /\ owns m s' /\ m_owner m = false
+                   /\ Permutation (live_ids s') (muri_blocks m ++ live_ids s0)
+  | (MSyntax _, s') => wf s' /\ ext s0 s' /\ Permutation (live_ids s') (live_ids s0)
+  | (MMalloc, s') => wf s' /\ ext s0 s' /\ Permutation (live_ids s') (live_ids s0) /\ fails_between s0 s'
+  end.
+Proof. exact parse_m_no_residue. Qed.
+Print Assumptions C03_no_residue.
+
+(* the same as counts: as many blocks live after a failure as before, no bad release *)
+Theorem C03_no_residue_count : forall t s0, wf s0 ->
+  match parse_m t s0 with
+  | (MOk m, s') => live_count s' = (length (muri_blocks m) + live_count s0)%nat
+  | (_, s') => live_count s' = live_count s0
+  end /\ bad_frees (snd (parse_m t s0)) = bad_frees s0.
+Proof. exact parse_m_no_residue_count. Qed.
+Print Assumptions C03_no_residue_count.
+
+(* What a failed parse leaves to the caller is the reset structure: passing it to the free function
+   releases nothing, records no bad release and leaves it reset, any number of times. *)
+Theorem C03_free_after_failure : forall n s, free_times n muri_empty s = (muri_empty, s).
+Proof. exact free_reset_repeatedly. Qed.
+Print Assumptions C03_free_after_failure.
+
+(* ---- non-vacuity ---------------------------------------------------------------------------- *)
 Local Open Scope string_scope.
-Example C03_ex : exists u, parse (ResolveProofs.txt "http://u@h:1/a/b?q#f") = POk u /\ pathSegs u <> [].
+Notation txt := ResolveProofs.txt.
+
+Example C03_ex : exists u, parse (txt "http://u@h:1/a/b?q#f") = POk u /\ pathSegs u <> [].
 Proof. eexists. split; [vm_compute; reflexivity|discriminate]. Qed.
+
+(* a prefix that is read without error ("//[::44.1", the literal of the regression test), one that
+   raises the error itself ("//[::44.1x"), the position reported, and the end-of-range error *)
+Example C03_ex_prefix :
+  (exists c d, psteps CStart pdata_init 0 (txt "//[::44.1") = inl (c, d, 9%nat))
+  /\ parse (txt "//[::44.1") = PSyntax 9
+  /\ psteps CStart pdata_init 0 (txt "//[::44.1x") = inr 9%nat
+  /\ parse (txt "//[::44.1x" ++ txt ".2.3]")%list = PSyntax 9
+  /\ parse (txt "//[::44.1" ++ txt ".2.3]")%list = parse (txt "//[::44.1.2.3]")
+  /\ (exists u, parse (txt "//[::44.1.2.3]") = POk u).
+Proof. vm_compute. repeat split; eauto. Qed.
+
+Example C03_ex_cstr : parse_cstr (txt "a:b" ++ 0%N :: txt "/junk")%list = parse (txt "a:b").
+Proof. vm_compute. reflexivity. Qed.
+
+(* a syntax failure and an out-of-memory failure with blocks already allocated: nothing stays *)
+Example C03_ex_residue :
+  (let '(r, s') := parse_m (txt "//1.2.3.4/a/b c") (ms_init NoFault) in r = MSyntax 13 /\ ms_live s' = [])
+  /\ (let '(r, s') := parse_m (txt "//1.2.3.4/a/b/c") (ms_init (FailOnce 3)) in r = MMalloc /\ ms_live s' = []).
+Proof. vm_compute. repeat split; reflexivity. Qed.
